@@ -14,6 +14,11 @@
 (***************************************************************************)
 EXTENDS Integers, Sequences, FiniteSets
 
+\* CommunityModules operators are used through instances (their Java overrides
+\* still apply) so that their many short names do not clash with ours
+SX == INSTANCE SequencesExt
+FX == INSTANCE FiniteSetsExt
+
 NONE == -1
 PANIC == -2
 HUGERES == -3
